@@ -2,6 +2,7 @@
 From Coq Require Import NArith List Bool.
 From PDB Require Import Gen.Consts Model.IndexPage Model.Pipeline Model.PipelineSpec
   Proofs.IndexEntryProofs Proofs.PipelineTop Proofs.PipelineRc.
+From PDB Require Model.IndexSlots Proofs.IndexSlotsProofs.
 Import ListNotations.
 Open Scope N_scope.
 
@@ -39,6 +40,37 @@ Theorem C09_growth_preserves_reads :
   get (run cfg init steps) c k = spec_txs (fun _ => None) (accepted cfg steps) (c, k).
 Proof. intros cfg f steps c k H1 H2. apply (proj1 (reads_are_spec cfg f steps c k H1 H2)). Qed.
 
+(* SLOT LEVEL. The index of a column as the code keeps it - a current generation and older ones waiting in the
+   reindex queue, 64-slot pages, entries in the first free slot, stale entries left behind when a value moves
+   while its entry is in an old generation, reindex batches of whole pages that move, skip and finally drop -
+   answers every lookup like the specification "the address the key's value was last put at": for EVERY
+   sequence of writes, removals, reindex batches and restarts, growing as often as pages overflow (from a
+   commit or from a batch itself). [kn] gives every key its 50 index-visible prefix bits - keys may share them;
+   a write names an address at which no other key's value lives (the allocator's contract, C14).
+   istep is the function the slot-level correspondence (kind 109) runs against the index files. *)
+Module Slots.
+Import PDB.Model.IndexSlots PDB.Proofs.IndexSlotsProofs.
+Theorem C09_slot_index_lookup_is_spec :
+  forall (kn : N -> N) (ops : list iop), wf_run kn [] ops ->
+  forall k, lookup (fold_left istep ops iinit) k (kn k) = alookup (fold_left spec_step ops []) k.
+Proof. exact lookup_is_spec. Qed.
+
+(* non-vacuity: 66 keys of one 16-bit page - they split into two pages with 17 bits, keys k and k+2 (k < 4 apart)
+   share all 50 index-visible bits - the 65th makes the index grow; a value moves while its entry is in the old
+   generation (a stale entry stays behind); a batch moves everything and drops the old generation; a removed
+   key is gone while the key that shares its bits is still found *)
+Definition ex_kn (k : N) : N := 5 * 2^34 + (k mod 2) * 2^33 + k / 4.
+Definition ex_ops : list iop :=
+  map (fun i => ISet (N.of_nat i) (ex_kn (N.of_nat i)) (100 + N.of_nat i)) (seq 0 66) ++
+  [ISet 3 (ex_kn 3) 500; IReindex; IRemove 7 (ex_kn 7); IRestart; IReindex].
+Example C09_slot_history :
+  let st := fold_left istep ex_ops iinit in
+  g_bits (cur st) = 17 /\ queue st = [] /\ ex_kn 5 = ex_kn 7 /\
+  lookup st 3 (ex_kn 3) = Some 500 /\ lookup st 64 (ex_kn 64) = Some 164 /\ lookup st 7 (ex_kn 7) = None /\ lookup st 5 (ex_kn 5) = Some 105 /\
+  length (queue (fold_left istep (firstn 67 ex_ops) iinit)) = 1%nat.
+Proof. vm_compute. repeat split; reflexivity. Qed.
+End Slots.
+
 (* Non-vacuity: bits = 16; two keys of the same page that differ in bit 13 (dropped by the entry)
    have the same page and partial key; a reindex step inside a history. *)
 Example C09_nonvacuous :
@@ -53,3 +85,4 @@ Print Assumptions C09_entry_roundtrip.
 Print Assumptions C09_key_recovered.
 Print Assumptions C09_page_and_partial_key_identify.
 Print Assumptions C09_growth_preserves_reads.
+Print Assumptions Slots.C09_slot_index_lookup_is_spec.
